@@ -247,8 +247,11 @@ structure Repo where
   lazy : List Loaded
   nextId : Nat
   searchPath : List Str
-  /-- set once the code has executed the use-after-free of the lazy→eager transition -/
-  ub : Bool
+  /-- ghost (not a variable of the C code): set once `register_internal` has re-used the key —
+      hence the recorded source — of a lazily loaded typelib for a typelib with ANOTHER header
+      (finding C17:eager-load-ignores-lazy-entry); only the hypotheses of `C17_inv_partial`
+      read it -/
+  staleKey : Bool
   deriving DecidableEq, Repr
 
 def Repo.init (searchPath : List Str) : Repo := ⟨[], [], 0, searchPath, false⟩
@@ -271,7 +274,7 @@ def insertTbl : List Loaded → Str → Typelib → List Loaded
   | l :: ls, source, tl =>
     if l.ns == tl.hdr.ns then ⟨l.source, tl⟩ :: ls else l :: insertTbl ls source tl
 
-/-- `g_hash_table_remove (table, namespace)` -/
+/-- `g_hash_table_steal (lazy_typelibs, key)`: the entry of the namespace leaves the table -/
 def eraseTbl (tbl : List Loaded) (ns : Str) : List Loaded :=
   tbl.filter (fun l => l.ns != ns)
 
@@ -335,10 +338,13 @@ def registerInternalWith (req : Req) (s : Repo) (source : Str) (lazy : Bool) (tl
     | (s1, .ok ()) =>
       match lookupTbl s1.lazy tl.hdr.ns with
       | some l =>
-        -- "transitioning from lazily loaded state": the key is freed by g_hash_table_remove
-        -- (key destroy = g_free) and then inserted into `typelibs`: use-after-free
+        -- "transitioning from lazily loaded state": the key of the lazy entry (namespace and
+        -- SOURCE of the lazily loaded typelib) is stolen from the lazy table and re-used for
+        -- `typelib`, which `require_internal` / `load_typelib` obtained without looking at
+        -- the lazy entry; the lazily loaded typelib itself is dropped
         ({ s1 with lazy := eraseTbl s1.lazy tl.hdr.ns,
-                   typelibs := insertTbl s1.typelibs l.source tl, ub := true }, .ok tl)
+                   typelibs := insertTbl s1.typelibs l.source tl,
+                   staleKey := s1.staleKey || decide (l.tl.hdr ≠ tl.hdr) }, .ok tl)
       | none => ({ s1 with typelibs := insertTbl s1.typelibs source tl }, .ok tl)
 
 /-- the file `require_internal` maps: the exact one when a version is given, else the elected -/
